@@ -20,10 +20,14 @@ pub fn scenario_case(s: &Scenario, rec: &mut CaseRec) -> Result<(), String> {
         return Ok(());
     }
     let o = evaluate_l1(s, &e, vec![])?;
-    o.report.result.clone().map_err(|x| format!("clone failed: {} (stage {})", x, o.report.stage))?;
+    // whether the clone succeeds and what the output holds in the end is judged by C01 / C02 / C03; here only the writes
+    if o.report.result.is_err() {
+        rec.excluded = Some("clone_failed_(judged_by_C01_C02_C03_not_here)".into());
+        return Ok(());
+    }
     let out = o.report.output.as_ref().unwrap();
     check_write_log(&e, &out.writes)?;
-    check_final_output(s, &e, &out.data)?;
+    rec.class_if(check_final_output(s, &e, &out.data).is_err(), "output_differs_from_source_(recorded_only)");
     classify_scenario(rec, s, &e);
     rec.level = Some("L1");
     rec.nontrivial = !e.in_place_offsets.is_empty() && e.in_prior.len() > 0 && e.src_chunks.iter().any(|m| e.in_prior.contains(&m.key(e.hash_len)) && !e.in_place_offsets.contains(&m.off)) && !e.missing.is_empty();
@@ -32,7 +36,15 @@ pub fn scenario_case(s: &Scenario, rec: &mut CaseRec) -> Result<(), String> {
 
 /// abstract layouts (shared with C03): every write is a target chunk at a target offset, once, never at an in-place location
 fn layout_case(l: &Layout, rec: &mut CaseRec) -> Result<(), String> {
-    let r = run_layout(l, 64)?;
+    // failures of the run itself (reorder error, chunks left over) and a wrong final content are C03's verdict
+    let r = match run_layout(l, 64) {
+        Ok(r) => r,
+        Err(_) => {
+            rec.excluded = Some("layout_run_failed_(judged_by_C03_not_here)".into());
+            return Ok(());
+        }
+    };
+    rec.class_if(r.output_error.is_some(), "output_differs_from_target_(recorded_only)");
     let mut seen: HashSet<u64> = HashSet::new();
     // target offsets
     let mut offs: Vec<(u64, usize)> = vec![];
